@@ -66,6 +66,16 @@ def stepAddr (st : DSt) (t : Addr) (ws : List String) : Option String :=
     match optNat n, optNat r, (parsePeers rest).bind (apeers st) with
     | some n, some r, some ps => some (tagNats "ok" ((calcClosestAddr t ps n r).map (·.1)))
     | _, _, _ => some "bad-op"
+  | "derive-range" :: nf :: fl :: rest =>
+    -- the neighbour's distance from the ADDRESSES: SHA-256, XOR, decimal detour of convert_distance_to_u256
+    match nf.toNat?, fl.toNat?, (parsePeers rest) with
+    | some nf, some fl, some ps =>
+      some (match deriveRange (fun p => match st.addrs.lookup p.1 with
+                                       | some a => convDist t a
+                                       | none => p.2) nf fl ps with
+        | some b => s!"ok {b}"
+        | none => "none")
+    | _, _, _ => some "bad-op"
   | _ => none
 
 def stepU (ws : List String) : String :=
@@ -106,6 +116,19 @@ def stepU (ws : List String) : String :=
     match optNat r, parsePeers rest with
     | some r, some ps => tagNats "ok" ((replicateCandidates (sortByDist ps) r).map (·.1))
     | _, _ => "bad-op"
+  | "proofresp" :: d :: rest =>
+    -- Node::respond_x_closest_record_proof, difficulty ≠ 1: the held chunks nearest the key
+    match d.toNat?, parsePeers rest with
+    | some d, some ps => tagNats "ok" ((respondClosest ps d).map (·.1))
+    | _, _ => "bad-op"
+  | "derive-range" :: nf :: fl :: rest =>
+    -- the interval arm of SwarmDriver::run: the responsible range from the routing table (distances to the node itself)
+    match nf.toNat?, fl.toNat?, parsePeers rest with
+    | some nf, some fl, some ps =>
+      match deriveRange (fun p => p.2) nf fl ps with
+      | some b => s!"ok {b}"
+      | none => "none"
+    | _, _, _ => "bad-op"
   | "closegroup" :: c :: me :: rest =>
     match c.toNat?, me.toNat?, parsePeers rest with
     | some c, some me, some ps =>
@@ -130,7 +153,7 @@ def step (st : DSt) (ws : List String) : DSt × String :=
         if ds.isEmpty then "-" else " ".intercalate (ds.map (fun (i, d) => s!"{i}:{d}")))
     | _, _ => (st, "bad-op")
   | op :: rest =>
-    if op ∈ ["sort", "inrange", "closest", "replcand", "closegroup"] then
+    if op ∈ ["sort", "inrange", "closest", "replcand", "closegroup", "proofresp", "derive-range"] then
       -- the `id:dist` pairs are the trailing words of every peer-list op
       let pairs := (rest.filter (fun w => w.contains ':')).filterMap (fun w =>
         match w.splitOn ":" with
